@@ -93,7 +93,8 @@ def build():
         "checks": checks,
         "notes": "See DESIGN.md. Exit codes: 0 held (KNOWN-FINDING lines possible), 1 VIOLATION, "
                  "2 machinery failure. Known findings: findings/known_findings.json. Extra model beyond the listed "
-                 "properties (nothing claimed): ./check X01 (VirtualImages.tla, Dataset4dstem virtual-image registry).",
+                 "properties (nothing claimed): ./check X01 (VirtualImages.tla, Dataset4dstem virtual-image registry), "
+                 "./check X02 (TiltSeriesState.tla, TomographyDataset parameter arrays).",
         "not_applicable": na,
     }
     return m
